@@ -2,9 +2,9 @@
 //!
 //! Requires the `time_trigger` feature.
 
-#[cfg(test)]
-use chrono::NaiveDateTime;
-use chrono::{DateTime, Datelike, Duration, Local, TimeZone, Timelike};
+use chrono::{
+    DateTime, Datelike, Duration, Local, LocalResult, NaiveDate, NaiveDateTime, TimeZone, Timelike,
+};
 #[cfg(test)]
 use mock_instant::{SystemTime, UNIX_EPOCH};
 use rand::Rng;
@@ -212,76 +212,98 @@ impl TimeTrigger {
         }
     }
 
+    // The schedule is computed on the wall clock (naive local time) and only
+    // then mapped back to an instant, so that a boundary stays a boundary
+    // across daylight-saving changes and ambiguous or skipped local times
+    // cannot cause a panic.
     fn get_next_time(
         current: DateTime<Local>,
         interval: TimeTriggerInterval,
         modulate: bool,
     ) -> DateTime<Local> {
-        let year = current.year();
+        let naive = current.naive_local();
+        let wall = |y: i32, m: u32, d: u32, h: u32, mi: u32, s: u32| {
+            NaiveDate::from_ymd_opt(y, m, d)
+                .and_then(|date| date.and_hms_opt(h, mi, s))
+                .unwrap_or(naive)
+        };
+
+        let year = naive.year();
         if let TimeTriggerInterval::Year(n) = interval {
             let n = n as i32;
             let increment = if modulate { n - year % n } else { n };
             let year_new = year + increment;
-            return Local.with_ymd_and_hms(year_new, 1, 1, 0, 0, 0).unwrap();
+            return TimeTrigger::resolve(wall(year_new, 1, 1, 0, 0, 0), current);
         }
 
         if let TimeTriggerInterval::Month(n) = interval {
-            let month0 = current.month0();
+            let month0 = naive.month0();
             let n = n as u32;
             let increment = if modulate { n - month0 % n } else { n };
             let num_months = (year as u32) * 12 + month0;
             let num_months_new = num_months + increment;
             let year_new = (num_months_new / 12) as i32;
             let month_new = (num_months_new) % 12 + 1;
-            return Local
-                .with_ymd_and_hms(year_new, month_new, 1, 0, 0, 0)
-                .unwrap();
+            return TimeTrigger::resolve(wall(year_new, month_new, 1, 0, 0, 0), current);
         }
 
-        let month = current.month();
-        let day = current.day();
+        let month = naive.month();
+        let day = naive.day();
         if let TimeTriggerInterval::Week(n) = interval {
-            let week0 = current.iso_week().week0() as i64;
-            let weekday = current.weekday().num_days_from_monday() as i64; // Monday is the first day of the week
-            let time = Local.with_ymd_and_hms(year, month, day, 0, 0, 0).unwrap();
+            let week0 = naive.iso_week().week0() as i64;
+            let weekday = naive.weekday().num_days_from_monday() as i64; // Monday is the first day of the week
+            let time = wall(year, month, day, 0, 0, 0);
             let increment = if modulate { n - week0 % n } else { n };
-            return time + Duration::weeks(increment) - Duration::days(weekday);
+            return TimeTrigger::resolve(
+                time + Duration::weeks(increment) - Duration::days(weekday),
+                current,
+            );
         }
 
         if let TimeTriggerInterval::Day(n) = interval {
-            let ordinal0 = current.ordinal0() as i64;
-            let time = Local.with_ymd_and_hms(year, month, day, 0, 0, 0).unwrap();
+            let ordinal0 = naive.ordinal0() as i64;
+            let time = wall(year, month, day, 0, 0, 0);
             let increment = if modulate { n - ordinal0 % n } else { n };
-            return time + Duration::days(increment);
+            return TimeTrigger::resolve(time + Duration::days(increment), current);
         }
 
-        let hour = current.hour();
+        let hour = naive.hour();
         if let TimeTriggerInterval::Hour(n) = interval {
-            let time = Local
-                .with_ymd_and_hms(year, month, day, hour, 0, 0)
-                .unwrap();
+            let time = wall(year, month, day, hour, 0, 0);
             let increment = if modulate { n - (hour as i64) % n } else { n };
-            return time + Duration::hours(increment);
+            return TimeTrigger::resolve(time + Duration::hours(increment), current);
         }
 
-        let min = current.minute();
+        let min = naive.minute();
         if let TimeTriggerInterval::Minute(n) = interval {
-            let time = Local
-                .with_ymd_and_hms(year, month, day, hour, min, 0)
-                .unwrap();
+            let time = wall(year, month, day, hour, min, 0);
             let increment = if modulate { n - (min as i64) % n } else { n };
-            return time + Duration::minutes(increment);
+            return TimeTrigger::resolve(time + Duration::minutes(increment), current);
         }
 
-        let sec = current.second();
+        let sec = naive.second();
         if let TimeTriggerInterval::Second(n) = interval {
-            let time = Local
-                .with_ymd_and_hms(year, month, day, hour, min, sec)
-                .unwrap();
+            let time = wall(year, month, day, hour, min, sec);
             let increment = if modulate { n - (sec as i64) % n } else { n };
-            return time + Duration::seconds(increment);
+            return TimeTrigger::resolve(time + Duration::seconds(increment), current);
         }
         panic!("Should not reach here!");
+    }
+
+    // Maps a wall-clock time to the first instant after `current` that carries
+    // it. When clocks are set back the wall-clock time occurs twice, when they
+    // are set forward it does not occur at all and the end of the gap is used.
+    fn resolve(wall: NaiveDateTime, current: DateTime<Local>) -> DateTime<Local> {
+        let mut wall = wall;
+        for _ in 0..200 {
+            match Local.from_local_datetime(&wall) {
+                LocalResult::Single(time) if time > current => return time,
+                LocalResult::Ambiguous(first, _) if first > current => return first,
+                LocalResult::Ambiguous(_, second) if second > current => return second,
+                _ => wall += Duration::minutes(15),
+            }
+        }
+        current + Duration::seconds(1)
     }
 }
 
